@@ -7,7 +7,8 @@
     comparison of every run (tools/props.py run_C05), not by these theorems.                 *)
 From Coq Require Import ZArith Reals List.
 From Rubato.Model Require Import Num Reals Base Async Resamplers.
-From Rubato.Proofs Require Import MalformedP ContentP FastInR FastOutR StreamR StreamOutR FftInOutP FftInR FftOutR FftStreamP FftInStreamR FftOutStreamR.
+From Rubato.Proofs Require Import MalformedP ContentP FastInR FastOutR StreamR StreamOutR FftInOutP FftInR FftOutR FftStreamP FftInStreamR FftOutStreamR NearestR SincInR SincStreamR.
+From Rubato.Gen Require Import SincGen.
 From Rubato.Model Require Import Fft.
 From Rubato.Gen Require Import SynchroGen.
 Import ListNotations.
@@ -154,6 +155,35 @@ Theorem C05_fft_out_stream_R : forall unit_fn rate_in rate_out chunk sub nch s (
   end.
 Proof. exact xo_fresh_stream. Qed.
 
+(** SincFixedIn, any chunk size and any set_chunk_size schedule between calls: output frame j of a fresh resampler is
+    [sinc_spec] — the inter-branch blend of the FIR branches applied to the input samples around the instant — at
+    -(sinc_len/2) + (j+1)/ratio.  The buffer invariant ([sholds]: the first fill+2*sinc_len cells hold exactly the last
+    samples of the stream) is preserved by set_chunk_size because the history shift uses the size of the chunk that
+    was loaded (current_buffer_fill), not the size requested for the next one. *)
+Theorem C05_sinc_in_call_R : forall env (s : @astate CR SR (@SincFixedIn CR)) wi wo (c : nat) (X : Z -> R) (N : Z) w,
+  si_wf env s -> a_precheck (@si_arch CR SR env) s wi wo None = Ok tt ->
+  sholds s c X N -> nth_error wi c = Some w -> feeds w X N (sC s) ->
+  exists s' (n : Z) outs o,
+    pib (@si_arch CR SR env) s wi wo None = Ok (s', (sC s, n), outs) /\ si_wf env s' /\ (0 <= n)%Z /\
+    sli s' = sli s + IZR n * / sratio s - IZR (sC s) /\ sC s' = sC s /\ sratio s' = sratio s /\ sL s' = sL s /\ snbr s' = snbr s /\
+    sholds s' c X (N + sC s) /\
+    nth_error outs c = Some o /\ (n <= zlen o)%Z /\
+    forall k, (0 <= k < n)%Z -> getz 0 o k = sinc_spec env (sL s) (snbr s) X (IZR N + sli s + IZR (k + 1) * / sratio s).
+Proof. exact si_call_stream. Qed.
+
+Theorem C05_sinc_in_stream_R : forall ratio0 maxrel env ilen inbr chunk nch s (c : nat) (X : Z -> R) ops,
+  (1 <= chunk)%Z -> (0 <= nch)%Z -> (8 <= ilen)%Z -> nbr_ok (se_type env) inbr -> (c < Z.to_nat nch)%nat ->
+  @sinc_in_new CR SR ratio0 maxrel env ilen inbr chunk nch = inr (RSincIn env s) ->
+  (forall n, (n < 0)%Z -> X n = 0) ->
+  sfed env c X 0 s ops ->
+  match si_stream env c s ops with
+  | Ok (_, _, ys) => forall j, (0 <= j < zlen ys)%Z ->
+                       getz 0 ys j = sinc_spec env ilen inbr X (- IZR (ilen ÷ 2) + IZR (j + 1) * / ratio0)
+  | Err _ => True
+  | Panic _ | UB _ | Diverge => False
+  end.
+Proof. exact si_fresh_stream_R. Qed.
+
 Print Assumptions C05_fast_in_call_R.
 Print Assumptions C05_fast_in_stream_R.
 Print Assumptions C05_fast_out_stream_R.
@@ -164,3 +194,5 @@ Print Assumptions C05_fft_in_call_R.
 Print Assumptions C05_fft_in_stream_R.
 Print Assumptions C05_fft_out_call_R.
 Print Assumptions C05_fft_out_stream_R.
+Print Assumptions C05_sinc_in_call_R.
+Print Assumptions C05_sinc_in_stream_R.
